@@ -19,11 +19,32 @@ template<typename E> struct MkHSX { typedef momo::HashSet<E, momo::HashTraitsStd
 template<typename E, bool M> struct MkTSX { typedef momo::TreeSet<E, momo::TreeTraitsStd<E, KLess, M>, kit::MM> T; static const bool multi = M;
 	static T make(int mgr) { return T(typename T::TreeTraits(), kit::MM(mgr)); } };
 
+// ---- coverage audit: further bucket kinds, hash distributions, node parameters, settings, crews -----------------
+template<typename E, typename Bucket, int dist> struct MkHSB { typedef HSet<E, Bucket> T; static const bool multi = false;
+	static T make(int mgr) { return T(htraits<T>(dist), kit::MM(mgr)); } };
+template<typename E, bool M, typename Node> struct MkTSN { typedef momo::TreeSet<E, momo::TreeTraitsStd<E, KLess, M, Node>, kit::MM,
+	momo::TreeSetItemTraits<E, kit::MM>, TSettings> T; static const bool multi = M; static T make(int mgr) { return T(typename T::TreeTraits(), kit::MM(mgr)); } };
+template<typename E, bool M, typename Node> struct MkTSDN { typedef momo::TreeSet<E, momo::TreeTraits<E, M, Node>, kit::MM,
+	momo::TreeSetItemTraits<E, kit::MM>, TSettings> T; static const bool multi = M; static T make(int mgr) { return T(typename T::TreeTraits(), kit::MM(mgr)); } };
+typedef momo::TreeNode<4, 2, momo::MemPoolParams<2>, true> NodeSmall;          // capacity 4: splits / merges / height 3-5 with < 100 items
+typedef momo::TreeNode<5, 1, momo::MemPoolParams<1>, false> NodeSmallIdx;      // non-continuous (index table) also for movable items
+// checkVersion = false + an EMPTY memory manager: the inline crew (SetCrew<.., false>), sets really swap their managers / traits
+template<typename E> struct MkHSI { typedef momo::HashSet<E, momo::HashTraitsStd<E, KHash, KEq>, momo::MemManagerDefault,
+	momo::HashSetItemTraits<E, momo::MemManagerDefault>, HSettingsNV> T; static const bool multi = false;
+	static T make(int) { return T(typename T::HashTraits(8, KHash(kit::MULT), KEq())); } };
+template<typename E, bool M> struct MkTSI { typedef momo::TreeSet<E, momo::TreeTraits<E, M>, momo::MemManagerDefault,
+	momo::TreeSetItemTraits<E, momo::MemManagerDefault>, TSettingsNV> T; static const bool multi = M;
+	static T make(int) { return T(); } };
+// checkVersion = false with the stateful kit manager (pointer crew without version)
+template<typename E> struct MkHSNV { typedef momo::HashSet<E, momo::HashTraitsStd<E, KHash, KEq>, kit::MM, momo::HashSetItemTraits<E, kit::MM>, HSettingsNV> T;
+	static const bool multi = false; static T make(int mgr) { return T(typename T::HashTraits(8, KHash(kit::MULT), KEq()), kit::MM(mgr)); } };
+
 static void gen_values(Rnd& r, int mode, bool srcMulti, bool dstMulti, std::vector<int64_t>& src, std::vector<int64_t>& dst)
 {
 	int ns = r.chance(1, 8) ? 0 : r.range(1, r.chance(1, 3) ? 70 : 12);
 	int nd = r.chance(1, 8) ? 0 : r.range(1, r.chance(1, 3) ? 70 : 12);
 	int span = r.range(8, 90);
+	if (mode == 4) { nd = 0; if (ns == 0) ns = 5; mode = 0; }      // empty destination, non-empty source: the Swap path
 	if (mode >= 10)      // big ordered trees: many nodes, several full memory-pool buffers on both sides (fast merge path)
 	{
 		mode -= 10; ns = r.range(150, 900); nd = r.range(150, 900); span = 100000;
@@ -58,10 +79,16 @@ static void merge_scenario(Report& rep, const char* name, uint64_t seed, int src
 		Rnd r(seed);
 		std::vector<int64_t> sv, dv;
 		gen_values(r, mode, MS::multi, MD::multi, sv, dv);
-		typename MD::T dst = MD::make(dstMgr);      // declared first: the SOURCE is destroyed before the destination (a destination
-		typename MS::T src = MS::make(srcMgr);      // that still points into the source's crew after a swap shows up as a kit error)
+		// both containers live on the heap so that the order of destruction can be chosen: by default the SOURCE dies first (a
+		// destination that still points into the source's crew after a swap shows up as a kit error); for odd seeds the
+		// source is refilled after the merge and the DESTINATION dies first
+		std::unique_ptr<typename MD::T> dstp(new typename MD::T(MD::make(dstMgr)));
+		std::unique_ptr<typename MS::T> srcp(new typename MS::T(MS::make(srcMgr)));
+		typename MD::T& dst = *dstp; typename MS::T& src = *srcp;
 		for (int64_t v : sv) src.Insert(E(v));
 		for (int64_t v : dv) dst.Insert(E(v));
+		size_t bk_d0 = bucket_count(dst, 0), th_d0 = tree_height(dst, 0), th_s0 = tree_height(src, 0);
+		uint64_t moves0 = kit::W().n_move;
 		MSet src0 = values(src), dst0 = values(dst), init = plus(src0, dst0);
 		std::set<int64_t> dkeys0; for (auto& p : dst0) dkeys0.insert(keyof(p.first));
 		Counters c0 = snap();
@@ -97,9 +124,48 @@ static void merge_scenario(Report& rep, const char* name, uint64_t seed, int src
 		for (auto& p : s1) if (!src.ContainsKey(E(p.first))) { rep.fail(tag + ": source item " + std::to_string(p.first) + " not findable"); break; }
 		dst.Insert(E(999901)); src.Insert(E(999902));
 		if (!dst.ContainsKey(E(999901)) || !src.ContainsKey(E(999902))) rep.fail(tag + ": container unusable afterwards");
+		// measured events
+		if (k == 0 && kind == 0)
+		{
+			rep.ev(std::string("src_items_") + (sv.size() == 0 ? "0" : sv.size() <= 12 ? "1-12" : sv.size() <= 70 ? "13-70" : ">70"));
+			rep.ev(std::string("dst_items_") + (dv.size() == 0 ? "0" : dv.size() <= 12 ? "1-12" : dv.size() <= 70 ? "13-70" : ">70"));
+		}
+		if (ok)
+		{
+			if (bucket_count(dst, 0) != bk_d0) rep.ev(bk_d0 == 0 ? "dst_hash_first_buckets" : "dst_hash_growth_with_existing_buckets");
+			if (tree_height(dst, 0) != th_d0) rep.ev("dst_tree_height_changed");
+			if (th_d0 >= 2) rep.ev("dst_tree_height>=2_before"); if (th_d0 >= 3) rep.ev("dst_tree_height>=3_before");
+			if (th_s0 >= 2) rep.ev("src_tree_height>=2_before"); if (th_s0 >= 3) rep.ev("src_tree_height>=3_before");
+			if (!s1.empty()) rep.ev("completed_with_refused_items");
+			if (C10_CAT != kit::TRIV && C10_CAT != kit::CPY && src0.size() >= 8 && s1.empty() && kit::W().n_move - moves0 < src0.size())
+				rep.ev("fast_or_swap_path_taken");
+		}
+		else rep.ev("threw_partway");
+		if ((seed & 1) != 0)
+		{
+			// refill the source after the merge, destroy the destination first
+			for (int i = 0; i < 60; ++i) src.Insert(E(int64_t(700000 + i) * 100 + 7));
+			for (int i = 0; i < 60; ++i) if (!src.ContainsKey(E(int64_t(700000 + i) * 100))) { rep.fail(tag + ": refilled source lost an item"); break; }
+			if (!check_tree(src, 0).empty()) rep.fail(tag + ": refilled source tree invalid: " + check_tree(src, 0));
+			dstp.reset();
+			size_t n2 = 0; for (const auto& e : src) { (void)e.Value(); ++n2; } if (n2 != src.GetCount()) rep.fail(tag + ": source unusable after the destination died");
+			srcp.reset();
+			rep.ev("refill_source_destination_dies_first");
+		}
+		else
+		{
+			srcp.reset();
+			for (int i = 0; i < 40; ++i) dst.Insert(E(int64_t(800000 + i) * 100 + 8));
+			size_t n2 = 0; for (const auto& e : dst) { (void)e.Value(); ++n2; } if (n2 != dst.GetCount()) rep.fail(tag + ": destination unusable after the source died");
+			dstp.reset();
+		}
 		return f;
 	});
 }
+
+// Set::Add(position, ExtractedItem&&): trees take the upper bound, hash sets the (empty) position returned by Find
+template<typename D, typename X> static auto add_at(D& d, X& ext, int) -> decltype((void)d.GetUpperBound(ext.GetItem())) { d.Add(d.GetUpperBound(ext.GetItem()), std::move(ext)); }
+template<typename D, typename X> static void add_at(D& d, X& ext, long) { d.Add(d.Find(ext.GetItem()), std::move(ext)); }
 
 template<typename E, typename MS, typename MD>
 static void extract_scenario(Report& rep, const char* name, uint64_t seed, int srcMgr, int dstMgr)
@@ -117,6 +183,7 @@ static void extract_scenario(Report& rep, const char* name, uint64_t seed, int s
 		MSet init = plus(values(src), values(dst));
 		size_t pos = size_t(r.range(0, int(src.GetCount()) - 1));
 		bool moveHolder = r.chance(1, 2);
+		bool useAdd = r.chance(1, 2);
 		auto it = src.GetBegin(); for (size_t i = 0; i < pos; ++i) ++it;
 		int64_t xv = it->Value();
 		bool present = !MD::multi && dst.ContainsKey(*it);
@@ -149,6 +216,12 @@ static void extract_scenario(Report& rep, const char* name, uint64_t seed, int s
 					if (res.inserted == present) rep.fail(tag + ": inserted flag wrong");
 					if (res.inserted != tmp.IsEmpty()) rep.fail(tag + ": handle emptiness does not match the inserted flag"); }
 				catch (...) { MSet h3; if (!tmp.IsEmpty()) add(h3, tmp.GetItem().Value()); check("after failed insert", h3); throw; }
+			}
+			else if (!present && useAdd)
+			{
+				try { add_at(dst, ext, 0); MSet h3; if (!ext.IsEmpty()) add(h3, ext.GetItem().Value()); check("after Add(pos, handle)", h3);
+					if (!ext.IsEmpty()) rep.fail(tag + ": handle not empty after Add(pos, handle)"); rep.ev("Add(pos+ExtractedItem)"); }
+				catch (...) { MSet h3; if (!ext.IsEmpty()) add(h3, ext.GetItem().Value()); check("after failed Add(pos, handle)", h3); throw; }
 			}
 			else
 			{
@@ -308,6 +381,54 @@ static void map_scenario(Report& rep, const char* name, uint64_t seed, int srcMg
 	});
 }
 
+// ---- fast-hashable keys: HashTraits<uint64_t> (HashCoder, IsFastNothrowHashable) selects Bucket<ItemTraits, false> -----------
+template<typename HB>
+static void fast_hash_scenario(Report& rep, const char* name, uint64_t seed, int op)
+{
+	typedef momo::HashTraits<uint64_t, HB> FT;
+	typedef momo::HashSet<uint64_t, FT, kit::MM, momo::HashSetItemTraits<uint64_t, kit::MM>, HSettings> FS;
+	static_assert(FT::isFastNothrowHashable, "uint64_t keys must select the fast-hash bucket variant");
+	for (long k = 0; k < 3000; ++k)      // only allocations can fail here
+	{
+		bool f;
+		{
+			Rnd r(seed);
+			std::vector<uint64_t> sv, dv; std::set<uint64_t> ks, kd;
+			int ns = r.range(1, r.chance(1, 2) ? 200 : 10), nd = r.range(0, r.chance(1, 2) ? 200 : 10);
+			for (int i = 0; i < ns; ++i) { uint64_t x = uint64_t(r.range(0, 500)); if (ks.insert(x).second) sv.push_back(x); }
+			for (int i = 0; i < nd; ++i) { uint64_t x = uint64_t(r.range(0, 500)); if (kd.insert(x).second) dv.push_back(x); }
+			FS src{ FT(), kit::MM(1) }, dst{ FT(), kit::MM(op == 0 ? 2 : 1) };
+			for (auto x : sv) src.Insert(x); for (auto x : dv) dst.Insert(x);
+			std::multiset<uint64_t> init(sv.begin(), sv.end()); init.insert(dv.begin(), dv.end());
+			std::multiset<uint64_t> held;
+			std::string tag = std::string(name) + " k=" + std::to_string(k);
+			kit::W().arm(k, -1, -1);
+			bool ok = true;
+			try
+			{
+				if (op == 0) src.MergeTo(dst);
+				else if (op == 1) { auto ext = src.Extract(src.GetBegin()); try { dst.Insert(std::move(ext)); } catch (...) { if (!ext.IsEmpty()) held.insert(ext.GetItem()); throw; } if (!ext.IsEmpty()) held.insert(ext.GetItem()); }
+				else if (op == 2) dst.Insert(sv.begin(), sv.end());
+				else dst.Remove([] (const uint64_t& x) { return x % 3 == 0; });
+			}
+			catch (const std::bad_alloc&) { ok = false; }
+			f = kit::W().fail_alloc < 0; kit::W().disarm();
+			std::multiset<uint64_t> all(held);
+			for (auto x : dst) all.insert(x);
+			if (op <= 1) { for (auto x : src) all.insert(x); if (all != init) rep.fail(tag + ": fast-hash set: items not conserved"); }
+			else if (op == 2) { for (auto x : dv) if (!dst.ContainsKey(x)) rep.fail(tag + ": original item lost"); for (auto x : dst) if (!ks.count(x) && !kd.count(x)) rep.fail(tag + ": foreign item"); if (ok) for (auto x : sv) if (!dst.ContainsKey(x)) rep.fail(tag + ": argument missing"); }
+			else { for (auto x : dst) if (!kd.count(x)) rep.fail(tag + ": foreign item"); for (auto x : dv) if (x % 3 != 0 && !dst.ContainsKey(x)) rep.fail(tag + ": kept item lost"); if (ok) for (auto x : dst) if (x % 3 == 0) rep.fail(tag + ": matching item left"); }
+			std::set<uint64_t> uniq; for (auto x : dst) if (!uniq.insert(x).second) rep.fail(tag + ": duplicate key");
+			if (k == 0 && bucket_count(dst, 0) > 8) rep.ev("fast_hash_growth_reached");
+			dst.Insert(999999); src.Insert(999998);
+		}
+		std::string sum = kit::summary();
+		if (sum != "0 0 0") { rep.fail(std::string(name) + " k=" + std::to_string(k) + ": live blocks/objects/errors " + sum); kit::W().errors.clear(); kit::W().blocks.clear(); }
+		if (!f) break;
+		++rep.points;
+	}
+}
+
 // ---- scenario table ----------------------------------------------------------------------------------
 static const char* SCEN[] = {
 	"merge_hs_hs_eq", "merge_hs_hs_ne", "merge_hsd_hsd", "merge_hs_hsd_from",
@@ -317,6 +438,13 @@ static const char* SCEN[] = {
 	"extract_hs_hs", "extract_ts_ts", "extract_hs_hsd", "extract_ts_tsm", "extract_tsm_tsm",
 	"insert_range_hsd", "insert_range_ts", "insert_range_tsm", "insert_il_hs", "insert_il_tsd",
 	"remove_pred_hsd", "remove_pred_hs", "remove_pred_ts", "remove_pred_tsm",
+	// coverage audit: bucket kinds, distributions, node parameters, crews, fast-hash keys
+	"merge_limp_limp", "merge_unlimp_unlimp", "merge_open2n2_open2n2", "merge_openn1_openn1", "merge_limp1_lim4", "merge_one_open8",
+	"merge_hs_const_hash", "merge_hs_highbits_hash", "insert_range_limp", "remove_pred_unlimp", "extract_limp_limp",
+	"merge_tssmall_tssmall", "merge_tssmallidx_tssmallidx", "merge_tsdsmall_tsdsmall_ordered", "merge_tsdsmall_tsdsmall", "extract_tssmall_tssmall", "remove_pred_tssmall", "insert_range_tssmall",
+	"merge_hs_inlinecrew", "merge_tsd_inlinecrew_empty_dst", "merge_tsd_inlinecrew_ordered", "merge_hs_noversion", "extract_hs_inlinecrew",
+	"fasthash_merge", "fasthash_extract", "fasthash_insert_range", "fasthash_remove_pred",
+	"fasthash_open8_merge", "fasthash_open8_extract", "fasthash_open8_insert_range", "fasthash_open8_remove_pred",
 	"map_merge_hm_hm", "map_merge_tm_tm", "map_merge_hm_tm", "map_merge_tm_hm", "map_extract_hm_hm", "map_extract_tm_tm",
 };
 
@@ -363,6 +491,37 @@ static void run_scenario(Report& rep, const std::string& s, uint64_t seed)
 	else if (s == "remove_pred_hs") remove_pred_scenario<E, MkHS<E>>(rep, n, seed);
 	else if (s == "remove_pred_ts") remove_pred_scenario<E, MkTS<E, false>>(rep, n, seed);
 	else if (s == "remove_pred_tsm") remove_pred_scenario<E, MkTS<E, true>>(rep, n, seed);
+	else if (s == "merge_limp_limp") merge_scenario<E, MkHSB<E, momo::HashBucketLimP<>, kit::MULT>, MkHSB<E, momo::HashBucketLimP<>, kit::LOWBITS>>(rep, n, seed, 1, 2, 0, false);
+	else if (s == "merge_unlimp_unlimp") merge_scenario<E, MkHSB<E, momo::HashBucketUnlimP<>, kit::MOD7>, MkHSB<E, momo::HashBucketUnlimP<>, kit::MULT>>(rep, n, seed, 1, 1, 0, false);
+	else if (s == "merge_open2n2_open2n2") merge_scenario<E, MkHSB<E, momo::HashBucketOpen2N2<>, kit::MULT>, MkHSB<E, momo::HashBucketOpen2N2<>, kit::IDENT>>(rep, n, seed, 1, 1, 0, true);
+	else if (s == "merge_openn1_openn1") merge_scenario<E, MkHSB<E, momo::HashBucketOpenN1<>, kit::MULT>, MkHSB<E, momo::HashBucketOpenN1<>, kit::LOWBITS>>(rep, n, seed, 1, 2, 0, false);
+	else if (s == "merge_limp1_lim4") merge_scenario<E, MkHSB<E, momo::HashBucketLimP1<>, kit::MULT>, MkHSB<E, momo::HashBucketLim4<>, kit::MULT>>(rep, n, seed, 1, 1, 0, false);
+	else if (s == "merge_one_open8") merge_scenario<E, MkHSB<E, momo::HashBucketOne<>, kit::MULT>, MkHSB<E, momo::HashBucketOpen8, kit::MULT>>(rep, n, seed, 1, 2, 0, false);
+	else if (s == "merge_hs_const_hash") merge_scenario<E, MkHSB<E, momo::HashBucketLimP4<>, kit::CONST>, MkHSB<E, momo::HashBucketLimP4<>, kit::CONST>>(rep, n, seed, 1, 1, 0, false);
+	else if (s == "merge_hs_highbits_hash") merge_scenario<E, MkHSB<E, momo::HashBucketOpen8, kit::HIGHBITS>, MkHSB<E, momo::HashBucketLimP4<>, kit::HIGHBITS>>(rep, n, seed, 1, 2, 0, false);
+	else if (s == "insert_range_limp") insert_range_scenario<E, MkHSB<E, momo::HashBucketLimP<>, kit::MULT>>(rep, n, seed, false);
+	else if (s == "remove_pred_unlimp") remove_pred_scenario<E, MkHSB<E, momo::HashBucketUnlimP<>, kit::MOD7>>(rep, n, seed);
+	else if (s == "extract_limp_limp") extract_scenario<E, MkHSB<E, momo::HashBucketLimP<>, kit::MULT>, MkHSB<E, momo::HashBucketLimP<>, kit::MULT>>(rep, n, seed, 1, 1);
+	else if (s == "merge_tssmall_tssmall") merge_scenario<E, MkTSN<E, false, NodeSmall>, MkTSN<E, false, NodeSmall>>(rep, n, seed, 1, 2, 0, false);
+	else if (s == "merge_tssmallidx_tssmallidx") merge_scenario<E, MkTSN<E, true, NodeSmallIdx>, MkTSN<E, true, NodeSmallIdx>>(rep, n, seed, 1, 1, 0, true);
+	else if (s == "merge_tsdsmall_tsdsmall_ordered") merge_scenario<E, MkTSDN<E, false, NodeSmall>, MkTSDN<E, false, NodeSmall>>(rep, n, seed, 1, 1, 1, false);
+	else if (s == "merge_tsdsmall_tsdsmall") merge_scenario<E, MkTSDN<E, false, NodeSmallIdx>, MkTSDN<E, false, NodeSmallIdx>>(rep, n, seed, 1, 1, 2, false);
+	else if (s == "extract_tssmall_tssmall") extract_scenario<E, MkTSN<E, false, NodeSmall>, MkTSN<E, false, NodeSmall>>(rep, n, seed, 1, 1);
+	else if (s == "remove_pred_tssmall") remove_pred_scenario<E, MkTSN<E, false, NodeSmall>>(rep, n, seed);
+	else if (s == "insert_range_tssmall") insert_range_scenario<E, MkTSN<E, false, NodeSmallIdx>>(rep, n, seed, false);
+	else if (s == "merge_hs_inlinecrew") merge_scenario<E, MkHSI<E>, MkHSI<E>>(rep, n, seed, 1, 1, 0, false);
+	else if (s == "merge_tsd_inlinecrew_empty_dst") merge_scenario<E, MkTSI<E, false>, MkTSI<E, false>>(rep, n, seed, 1, 1, 4, false);
+	else if (s == "merge_tsd_inlinecrew_ordered") merge_scenario<E, MkTSI<E, true>, MkTSI<E, true>>(rep, n, seed, 1, 1, 1, true);
+	else if (s == "merge_hs_noversion") merge_scenario<E, MkHSNV<E>, MkHSNV<E>>(rep, n, seed, 1, 2, 0, true);
+	else if (s == "extract_hs_inlinecrew") extract_scenario<E, MkHSI<E>, MkHSI<E>>(rep, n, seed, 1, 1);
+	else if (s == "fasthash_merge") fast_hash_scenario<momo::HashBucketDefault>(rep, n, seed, 0);
+	else if (s == "fasthash_extract") fast_hash_scenario<momo::HashBucketDefault>(rep, n, seed, 1);
+	else if (s == "fasthash_insert_range") fast_hash_scenario<momo::HashBucketDefault>(rep, n, seed, 2);
+	else if (s == "fasthash_remove_pred") fast_hash_scenario<momo::HashBucketDefault>(rep, n, seed, 3);
+	else if (s == "fasthash_open8_merge") fast_hash_scenario<momo::HashBucketOpen8>(rep, n, seed, 0);
+	else if (s == "fasthash_open8_extract") fast_hash_scenario<momo::HashBucketOpen8>(rep, n, seed, 1);
+	else if (s == "fasthash_open8_insert_range") fast_hash_scenario<momo::HashBucketOpen8>(rep, n, seed, 2);
+	else if (s == "fasthash_open8_remove_pred") fast_hash_scenario<momo::HashBucketOpen8>(rep, n, seed, 3);
 	else if (s == "map_merge_hm_hm") map_scenario<E, MkHM<E>, MkHM<E>, false>(rep, n, seed, 1, 2);
 	else if (s == "map_merge_tm_tm") map_scenario<E, MkTM<E>, MkTM<E>, false>(rep, n, seed, 1, 1);
 	else if (s == "map_merge_hm_tm") map_scenario<E, MkHM<E>, MkTM<E>, false>(rep, n, seed, 1, 1);
@@ -376,7 +535,37 @@ static void run_scenario(Report& rep, const std::string& s, uint64_t seed)
 #ifndef C10_CAT
 #define C10_CAT kit::NTM
 #endif
-static const char* cat_name() { return C10_CAT == kit::NTM ? "NTM" : C10_CAT == kit::SMH ? "SMH" : C10_CAT == kit::THM ? "THM" : "CPY"; }
+static const char* cat_name() { return C10_CAT == kit::TRIV ? "TRIV" : C10_CAT == kit::NTM ? "NTM" : C10_CAT == kit::SMH ? "SMH" : C10_CAT == kit::THM ? "THM" : "CPY"; }
+
+// the classes that the configurations REALLY instantiate (checked by prop.py against the intended ones)
+static void print_types()
+{
+	typedef LE<C10_CAT> E;
+	std::cout << "cat " << cat_name() << " trivially_relocatable=" << momo::internal::ObjectManager<E, kit::MM>::isTriviallyRelocatable
+		<< " nothrow_relocatable=" << momo::internal::ObjectManager<E, kit::MM>::isNothrowRelocatable
+		<< " nothrow_anyway_assignable=" << momo::internal::ObjectManager<E, kit::MM>::isNothrowAnywayAssignable << "\n";
+	std::cout << "bucket hs_open8 " << type_name(typeid(typename MkHS<E>::T::Bucket)) << "\n";
+	std::cout << "bucket hs_default " << type_name(typeid(typename MkHSD<E>::T::Bucket)) << "\n";
+	std::cout << "bucket limp " << type_name(typeid(typename MkHSB<E, momo::HashBucketLimP<>, kit::MULT>::T::Bucket)) << "\n";
+	std::cout << "bucket unlimp " << type_name(typeid(typename MkHSB<E, momo::HashBucketUnlimP<>, kit::MULT>::T::Bucket)) << "\n";
+	std::cout << "bucket open2n2 " << type_name(typeid(typename MkHSB<E, momo::HashBucketOpen2N2<>, kit::MULT>::T::Bucket)) << "\n";
+	std::cout << "bucket openn1 " << type_name(typeid(typename MkHSB<E, momo::HashBucketOpenN1<>, kit::MULT>::T::Bucket)) << "\n";
+	std::cout << "bucket limp1 " << type_name(typeid(typename MkHSB<E, momo::HashBucketLimP1<>, kit::MULT>::T::Bucket)) << "\n";
+	std::cout << "bucket lim4 " << type_name(typeid(typename MkHSB<E, momo::HashBucketLim4<>, kit::MULT>::T::Bucket)) << "\n";
+	std::cout << "bucket one " << type_name(typeid(typename MkHSB<E, momo::HashBucketOne<>, kit::MULT>::T::Bucket)) << "\n";
+	typedef momo::HashSet<uint64_t, momo::HashTraits<uint64_t>, kit::MM, momo::HashSetItemTraits<uint64_t, kit::MM>, HSettings> FS;
+	std::cout << "bucket fasthash " << type_name(typeid(FS::Bucket)) << "\n";
+	typedef momo::HashSet<uint64_t, momo::HashTraits<uint64_t, momo::HashBucketOpen8>, kit::MM, momo::HashSetItemTraits<uint64_t, kit::MM>, HSettings> FS8;
+	std::cout << "bucket fasthash_open8 " << type_name(typeid(FS8::Bucket)) << "\n";
+	std::cout << "node ts_default " << type_name(typeid(typename MkTS<E, false>::T::Node)) << "\n";
+	std::cout << "node ts_small " << type_name(typeid(typename MkTSN<E, false, NodeSmall>::T::Node)) << "\n";
+	std::cout << "node ts_smallidx " << type_name(typeid(typename MkTSN<E, false, NodeSmallIdx>::T::Node)) << "\n";
+	std::cout << "crew hs_kitmm " << type_name(typeid(typename MkHS<E>::T::Crew)) << "\n";
+	std::cout << "crew hs_inline " << type_name(typeid(typename MkHSI<E>::T::Crew)) << " is_inline=" << std::is_base_of<momo::MemManagerDefault, typename MkHSI<E>::T::Crew>::value << "\n";
+	std::cout << "crew tsd_inline " << type_name(typeid(typename MkTSI<E, false>::T::Crew)) << " is_inline=" << std::is_base_of<momo::MemManagerDefault, typename MkTSI<E, false>::T::Crew>::value << "\n";
+	std::cout << "crew hs_noversion " << type_name(typeid(typename MkHSNV<E>::T::Crew)) << "\n";
+	std::cout << "traits tsd_empty=" << std::is_empty<typename MkTSD<E, false>::T::TreeTraits>::value << " ts_functor_empty=" << std::is_empty<typename MkTS<E, false>::T::TreeTraits>::value << "\n";
+}
 
 int main(int argc, char** argv)
 {
@@ -385,6 +574,7 @@ int main(int argc, char** argv)
 		for (const char* s : SCEN) std::cout << s << " " << cat_name() << "\n";
 		return 0;
 	}
+	if (argc > 1 && std::string(argv[1]) == "--types") { print_types(); return 0; }
 	std::string line;
 	while (std::getline(std::cin, line))
 	{
